@@ -11,7 +11,7 @@ import itertools
 from isomc import refmodel as M
 
 EXACT = [{"seconds": 1}, {"hours": 1}, {"minutes": 90}, {"days": 1}, {"hours": 36}, {"weeks": 1},
-         {"days": 7}, {"days": 366}, {"seconds": 0}, {"hours": 1, "minutes": -60}]
+         {"days": 7}, {"days": 366}, {"seconds": 0}, {"hours": 1, "minutes": -60}, {"seconds": 1.5}, {"seconds": 0.25}]
 NOMINAL = [{"months": 1}, {"months": 2}, {"years": 1}, {"years": 4}, {"months": 1, "days": 2},
            {"years": 1, "months": 1}, {"months": 1, "hours": 1}]
 NS = [None, 1, 2, 3, 4, 7]
